@@ -41,7 +41,7 @@ def info(tier):
         "required_cells": [f"family:{f}" for f in NG.FAMILIES] + ["sense:min", "sense:max", "method:auto", "method:SLSQP",
                                                                    "method:trust-constr", "method:L-BFGS-B", "method:BFGS",
                                                                    "wiring:fun", "wiring:jac", "wiring:hess", "wiring:cfun", "wiring:cjac",
-                                                                   "wiring:bounds", "wiring:x0", "x0:default", "x0:explicit", "end-to-end", "re-solve", "staged-model", "constraints:single-variable-only", "parameters:first-solve", "parameters:solve-after-set", "deep-accumulated-objective"],
+                                                                   "wiring:bounds", "wiring:x0", "x0:default", "x0:explicit", "end-to-end", "re-solve", "staged-model", "constraints:single-variable-only", "objective:bare-reduction-with-other-variables", "parameters:first-solve", "parameters:solve-after-set", "deep-accumulated-objective"],
         "assumptions": [
             "SciPy's solvers are trusted; only optyx's use of them is judged",
             "end-to-end verdicts only where raw SciPy with reference callables itself converges to the manufactured optimum (else non-comparable)",
@@ -429,6 +429,103 @@ def run_param_history(rec, rng, seams, method):
     rec.sample(show, cap=2)
 
 
+def run_bare_objective(rec, rng, seams, method):
+    """The objective is ONE bare reduction node over a vector (the forms with vectorised gradient shortcuts of their own) in a model that
+    has further variables, which occur only in constraints and sort after / before the vector: fun and jac handed to SciPy are compared
+    with the reference on every evaluation, the result with raw SciPy."""
+    n = 3
+    x = ["vec", "x"]
+    other = rng.choice(["z", "a0", "x_aux"])
+    decls = [{"k": "vec", "name": "x", "n": n, "lb": -1.0, "ub": 6.0}, {"k": "var", "name": other, "lb": 0.0, "ub": 3.0}]
+    kind = rng.choice(["sum x^2", "sum x^4", "x.x", "sum exp", "qf", "sum x^2 over slice"])
+    obj = {"sum x^2": ["sum", ["vpow", x, 2]], "sum x^4": ["sum", ["vpow", x, 4]], "x.x": ["dot", x, x], "sum exp": ["sum", ["vfn", "exp", x]],
+           "qf": ["qf", x, [[2.0, 0.5, 0.0], [0.5, 1.0, 0.25], [0.0, 0.25, 1.5]]], "sum x^2 over slice": ["sum", ["vpow", ["slice", x, 0, 2, None], 2]]}[kind]
+    a = [1.0, 2.0, 0.5]
+    cons = [["rel", "==", ["bin", "+", ["matmul", ["arr", a], x], ["var", other]], ["raw", 6.0, "float"], "direct"]]
+    sense = "min"
+    prob = {"decls": decls, "objective": obj, "sense": sense, "constraints": cons}
+    D = R.Decls(decls)
+    names = R.natural_sorted(D.all_var_names())
+    N = len(names)
+    rec.case({"bare-objective": kind, "other": other, "m": method})
+    show = {"decls": A.render_decls(decls), "objective": A.render(obj), "constraints": [A.render(c) for c in cons], "method": method}
+    state = {"flagged": False, "n": 0}
+
+    def bad(what, **kw):
+        rec.violation(what, {"prob": prob, "method": method, "show": show, **kw})
+
+    def wrap(kind_, fn, call):
+        base_kind = kind_ if isinstance(kind_, str) else kind_[0]
+        if base_kind not in ("fun", "jac"):
+            return fn
+
+        def wrapped(xx, *a_, **k_):
+            out = fn(xx, *a_, **k_)
+            state["n"] += 1
+            if state["flagged"] or state["n"] > 60:
+                return out
+            pt = dict(zip(names, map(float, np.asarray(xx, dtype=float))))
+            j, tr = R.ref_jet(D, obj, names, pt, order=1)
+            if not tr.regular(1e-6, 1e8):
+                return out
+            rec.cmp(1, "wiring:" + base_kind)
+            if base_kind == "fun" and not close(float(out), float(j.v), 1e-9, tr.mag)[0]:
+                state["flagged"] = True
+                bad("wiring:fun-of-a-bare-reduction-objective-differs", got=float(out), want=float(j.v))
+            if base_kind == "jac":
+                g = np.asarray(out, dtype=float).reshape(-1)
+                if g.shape != (N,) or not all(close(g[i], float(j.g[i]), 1e-7, max(tr.mag, tr.dmag))[0] for i in range(N)):
+                    state["flagged"] = True
+                    bad("wiring:jac-of-a-bare-reduction-objective-differs", got=g.tolist(), want=[float(v) for v in j.g], order=names)
+            return out
+
+        return wrapped
+
+    try:
+        b = B.Builder(decls)
+        P = b.problem(prob)
+    except Exception as ex:
+        bad("build-raises:" + type(ex).__name__, error=repr(ex)[:200])
+        return
+    seams.reset()
+    seams.wrap_callables = wrap
+    try:
+        with warnings.catch_warnings():
+            warnings.simplefilter("ignore")
+            sol = P.solve(method=method, **({"maxiter": 300} if method == "trust-constr" else {}))
+    except Exception as ex:
+        bad("solve-raises:" + type(ex).__name__, error=repr(ex)[:200])
+        return
+    finally:
+        seams.wrap_callables = None
+    rec.cmp(1, "objective:bare-reduction-with-other-variables")
+    if state["flagged"] or not seams.min_calls:
+        return
+    x0 = seams.min_calls[-1]["x0"]
+    idx = {nm: i for i, nm in enumerate(names)}
+    rf = lambda z: float(R.ref_jet(D, obj, names, dict(zip(names, map(float, z))), order=1)[0].v)  # noqa: E731
+    rg = lambda z: np.array(R.ref_jet(D, obj, names, dict(zip(names, map(float, z))), order=1)[0].g, dtype=float)  # noqa: E731
+    arow = np.zeros(N)
+    for i_, c_ in enumerate(a):
+        arow[idx[f"x[{i_}]"]] = c_
+    arow[idx[other]] = 1.0
+    rb = [(-1.0, 6.0) if nm.startswith("x[") else (0.0, 3.0) for nm in names]
+    with warnings.catch_warnings():
+        warnings.simplefilter("ignore")
+        raw = seams.orig_minimize(rf, np.array(x0, dtype=float), method="SLSQP", jac=rg, bounds=rb,
+                                  constraints=[{"type": "eq", "fun": lambda z: float(arow @ z - 6.0), "jac": lambda z: arow}])
+    if not raw.success:
+        rec.noncomp["raw-scipy-did-not-converge"] += 1
+        return
+    rec.cmp(1, "end-to-end")
+    if sol.status.value != "optimal":
+        bad("bare-objective:raw-scipy-converges-but-optyx-is-" + sol.status.value, message=sol.message[:120])
+        return
+    xo = np.array([sol.values[nm] for nm in names])
+    if rf(xo) - float(raw.fun) > 1e-5 * (1 + abs(float(raw.fun))):
+        bad("bare-objective:optimum-differs-from-raw-scipy", f_optyx=rf(xo), f_raw=float(raw.fun), x_optyx=xo.tolist(), x_raw=raw.x.tolist())
+
+
 def run_deep_history(rec, rng, seams, method):
     """An objective accumulated term by term (> 400 terms) in which the same element objects recur as both operands of binary nodes
     ((x_i - x_j)^2 over all pairs): the callables handed to SciPy are compared with the closed form, the result with raw SciPy."""
@@ -555,6 +652,8 @@ def run(ctx, rec):
                 run_problem(prob, ["auto", "auto", "SLSQP", "trust-constr"][(n // 5) % 4], "default", rec, rng, seams)
             if n % 4 == 0:
                 run_param_history(rec, rng, seams, ["SLSQP", "trust-constr", "auto", "L-BFGS-B"][(n // 4 + ctx.shard) % 4])
+            if n % 4 == 1:
+                run_bare_objective(rec, rng, seams, ["auto", "SLSQP", "trust-constr"][(n // 4 + ctx.shard) % 3])
             if n % 20 == 10:
                 run_deep_history(rec, rng, seams, ["SLSQP", "trust-constr", "auto"][(n // 20 + ctx.shard) % 3])
     finally:
